@@ -18,12 +18,30 @@ def parseAtt (j : Json) : R Att := do
   | [a, t, m, k] => return { name := ← a.getStr?, target := ← optStr t, mandatory := ← m.getBool?, kind := ← k.getNat? }
   | _ => throw "bad att"
 
+def parsePair (j : Json) : R (String × String) := do
+  match (← (← arr j).mapM (·.getStr?)) with
+  | [a, b] => pure (a, b)
+  | _ => throw "bad pair"
+
+/-- optional field (absent in cases recorded before the fault injection existed): list of pairs -/
+def optPairs (j : Json) (k : String) : R (List (String × String)) :=
+  match j.getObjVal? k with
+  | .ok v => do (← arr v).mapM parsePair
+  | .error _ => pure []
+
+/-- optional field: a string or null / absent -/
+def optStrFld (j : Json) (k : String) : R (Option String) :=
+  match j.getObjVal? k with
+  | .ok v => optStr v
+  | .error _ => pure none
+
 def parseMod (j : Json) : R ModCfg := do
   return { name := ← fldStr j "name", cls := ← parseCls (← fldStr j "cls"), exported := ← fldBool j "export",
            poll := ← fldBool j "poll", writes := ← fldStrs j "writes", atts := ← (← fldArr j "atts").mapM parseAtt,
            touchEarly := ← fldStrs j "te", touchInit := ← fldStrs j "ti", failEarly := ← fldBool j "fe",
            failInit := ← fldBool j "fi", uri := ← optStr (← fld j "uri"), scan := ← fldStrs j "scan",
-           delay := ← fldNat j "delay" }
+           delay := ← fldNat j "delay", writeFail := ← optPairs j "wfail",
+           readsFail := ← optStrFld j "rfail", pollFail := ← optStrFld j "pfail" }
 
 def parseCfg (j : Json) : R Cfg := do
   let mods ← (← fldArr j "mods").mapM parseMod
@@ -39,6 +57,8 @@ def evJson : Ev → Json
   | .write m p => jstrs ["write", m, p]
   | .firstpoll m => jstrs ["firstpoll", m]
   | .rounddone t => jstrs ["rounddone", t]
+  | .initread m => jstrs ["initread", m]
+  | .comfail m => jstrs ["comfail", m]
   | .deadline => jstrs ["deadline"]
   | .timeout t => jstrs ["timeout", t]
   | .ready => jstrs ["ready"]
@@ -60,6 +80,8 @@ def parseEv (j : Json) : R Ev := do
   | ["write", m, p] => pure (.write m p)
   | ["firstpoll", m] => pure (.firstpoll m)
   | ["rounddone", t] => pure (.rounddone t)
+  | ["initread", m] => pure (.initread m)
+  | ["comfail", m] => pure (.comfail m)
   | ["deadline"] => pure .deadline
   | ["timeout", t] => pure (.timeout t)
   | ["ready"] => pure .ready
@@ -78,11 +100,6 @@ def parseErr (j : Json) : R Err := do
   | [p, m, c] => pure ⟨p, m, c⟩
   | _ => throw "bad err"
 
-def parsePair (j : Json) : R (String × String) := do
-  match (← (← arr j).mapM (·.getStr?)) with
-  | [a, b] => pure (a, b)
-  | _ => throw "bad pair"
-
 def pairJson (p : String × String) : Json := jstrs [p.1, p.2]
 
 def parseObs (j : Json) : R Obs := do
@@ -98,6 +115,8 @@ def schedOf (st : St) (log : List Ev) : List Act :=
     | .thread _ => some .main
     | .write m _ => some (.step (owner m))
     | .firstpoll m => some (.step (owner m))
+    | .initread m => some (.step (owner m))
+    | .comfail m => some (.step (owner m))
     | .rounddone t => some (.step t)
     | .deadline => some .expire
     | .ready => some .wake
